@@ -230,6 +230,48 @@ func checkC05(c *Ctx) {
 	}
 	c.importFrom(checkC07, "C05.7", "C07.4", "C07.6")
 
+	// C05.8 an honest leader's proposal passes Voter.Verify's link checks: the proposed block's parent is the block its QC certifies
+	if npm := p.Func("", "NewProposeMsg"); npm != nil {
+		k := NewKeyer(p, npm)
+		ok := false
+		eachInstr(npm, func(in ssa.Instruction) {
+			call, isCall := in.(*ssa.Call)
+			if !isCall || call.Call.StaticCallee() == nil || call.Call.StaticCallee().Name() != "NewBlock" {
+				return
+			}
+			a := call.Call.Args
+			if len(a) == 5 && k.Key(a[0]) == kQCHash+"p2)" && k.Key(a[1]) == "p2" && k.Key(a[3]) == "p1" && k.Key(a[4]) == "p0" {
+				ok = true
+			}
+		})
+		c.Check(ok, "C05.8", "NewProposeMsg: block = NewBlock(qc.BlockHash(), qc, cmd, view, id)", p.FuncPos(npm),
+			"the proposed block's parent is the hash certified by the embedded QC, its view and proposer are the arguments", "an honest proposal would be rejected by every voter (parent/QC mismatch) or carry the wrong view/proposer")
+		rs := p.Iface("protocol/consensus", "Ruleset")
+		for _, t := range p.Implementations(rs, false) {
+			if t.Obj().Pkg().Path() != modPath+"/protocol/rules" {
+				continue
+			}
+			fn := p.MethodOf(t, "ProposeRule")
+			if fn == nil {
+				continue
+			}
+			kk := NewKeyer(p, fn)
+			okP := false
+			eachInstr(fn, func(in ssa.Instruction) {
+				call, isCall := in.(*ssa.Call)
+				if !isCall || call.Call.StaticCallee() != npm {
+					return
+				}
+				a := call.Call.Args
+				if strings.HasPrefix(kk.Key(a[0]), "(*hs/core.RuntimeConfig).ID(") && kk.Key(a[1]) == "p1" && strings.HasPrefix(kk.Key(a[2]), "(hs.SyncInfo).QC(p2)") && kk.Key(a[3]) == "p3" {
+					okP = true
+				}
+			})
+			c.Check(okP, "C05.8", t.Obj().Name()+".ProposeRule: proposes (own id, current view, the sync info's QC, the batch)", p.FuncPos(fn),
+				"NewProposeMsg(config.ID(), view, cert.QC(), cmd)", "the proposal is not built from the current view and the high QC")
+		}
+	}
+
 	// C05.4 / C05.5 imported
 	c.importFrom(checkC08, "C05.4", "C08.5")
 	c.importFrom(checkC08, "C05.5", "C08.3")
